@@ -320,6 +320,23 @@ func (c *FnCtx) loopEnv(li *LoopInfo, phiVal func(*ssa.Phi) Term, st *State, old
 	return env
 }
 
+// invClause translates a loop invariant; if the changed code no longer has the names the invariant
+// mentions, the invariant is dropped with a warning (what depended on it then fails to discharge and is
+// reported under its own name) instead of making the whole function unverifiable.
+func (c *FnCtx) invClause(inv *Clause, env *Env, goal bool) (t Term, ok bool) {
+	var err error
+	if goal {
+		t, err = c.trClause(inv, env.withGoal(true))
+	} else {
+		t, err = c.trClause(inv, env)
+	}
+	if err != nil {
+		c.warn("loop invariant dropped (does not apply to this code): %v", err)
+		return "true", false
+	}
+	return t, true
+}
+
 func (c *FnCtx) loopPrefix(li *LoopInfo) string {
 	return fmt.Sprintf("%s/loop%d", c.name, li.ord)
 }
@@ -346,10 +363,14 @@ func (c *FnCtx) loopHead(li *LoopInfo) {
 				o.Tags = inv.Tags
 				saved := c.st
 				c.st = e.from.out
-				t := c.mustClause(inv, env)
-				g := c.mustGoal(inv, env)
+				t, ok1 := c.invClause(inv, env, false)
+				g, ok2 := c.invClause(inv, env, true)
 				c.st = saved
-				e.items = append(e.items, Item{true, t, o, g})
+				if ok1 && ok2 {
+					e.items = append(e.items, Item{true, t, o, g})
+				} else {
+					c.dropOblig(o)
+				}
 			}
 		}
 	}
@@ -380,7 +401,9 @@ func (c *FnCtx) loopHead(li *LoopInfo) {
 	env := c.loopEnv(li, phiSelf, c.st, c.entry)
 	if li.spec != nil {
 		for _, inv := range li.spec.Invariants {
-			c.assume(c.mustClause(inv, env))
+			if t, ok := c.invClause(inv, env, false); ok {
+				c.assume(t)
+			}
 		}
 		if li.spec.Decreases != nil {
 			t, _ := c.tr(li.spec.Decreases.E, env)
@@ -525,7 +548,13 @@ func (c *FnCtx) loopBackEdges(li *LoopInfo) {
 				o := c.oblig(fmt.Sprintf("%s/inv#%d/preserved", c.loopPrefix(li), k+1), "inv-preserved", inv.Src, false)
 				o.Desc = inv.Text
 				o.Tags = inv.Tags
-				e.items = append(e.items, Item{true, c.mustClause(inv, env), o, c.mustGoal(inv, env)})
+				t, ok1 := c.invClause(inv, env, false)
+				g, ok2 := c.invClause(inv, env, true)
+				if ok1 && ok2 {
+					e.items = append(e.items, Item{true, t, o, g})
+				} else {
+					c.dropOblig(o)
+				}
 			}
 			if li.spec.Decreases != nil {
 				t, _ := c.tr(li.spec.Decreases.E, env)
